@@ -332,6 +332,30 @@ pub mod cl {
 //@rewrite? N5 expr Mutex::new(self.cache.lock().unwrap().clone()) => self.cache.clone_cache()
 //@rewrite? N5 expr Mutex::new($..x) => ($x)
 //@end
+
+// ---- C11.10: a state that is derived from another state but differs from it in T must not inherit its cache:
+// `truth` is the derivative *for this state*; after a change of temperature every cached value is stale.
+// `new_nvt` is used through its contract (new_nvt_unchecked builds `Mutex::new(Cache::with_capacity(..))`: unit
+// state_props / with_capacity above); `validate`, `to_reduced` are stand-ins so that a variant that assembles the
+// state by hand is still *verified* (and refuted) rather than rejected.
+//@fn feos-core/src/state/mod.rs State::update_temperature ret=r
+        ensures
+            r is Ok ==> (r->Ok_0.cache.map@ == Map::<PartialDerivative, f64>::empty()
+                          || (r->Ok_0.temperature == self.temperature && r->Ok_0.reduced_temperature == self.reduced_temperature)),
+//@rewrite? N5 expr Self::new_nvt($..a) => new_nvt($a)
+//@rewrite? N5 expr self.clone() => self.clone_state()
+//@end
+    }
+    pub struct EosErr;
+    pub type EosResult<T> = Result<T, EosErr>;
+    #[verifier::external_body]
+    pub fn new_nvt<E>(eos: &Arc<E>, temperature: Temperature, volume: Volume, moles: &Moles<Array1<f64>>) -> (r: Result<State<E>, EosErr>)
+        ensures r is Ok ==> r->Ok_0.cache.map@ == Map::<PartialDerivative, f64>::empty() && r->Ok_0.temperature == temperature
+    { unimplemented!() }
+    #[verifier::external_body]
+    pub fn validate(temperature: Temperature, volume: Volume, moles: &Moles<Array1<f64>>) -> (r: Result<(), EosErr>) { unimplemented!() }
+    impl Temperature {
+        #[verifier::external_body] pub fn to_reduced(&self) -> (r: f64) { unimplemented!() }
     }
 }
 
